@@ -44,6 +44,8 @@ BlockShapes ==
            <<"sdt", << <<"sdt", <<P1>>>> >>>>,                          \* content control nested in a content control
            <<"sdt", << P1, <<"sdt", <<P1>>>>, P1 >>>>,
            <<"sdt", << SmallTbl >>>>,                                   \* table inside a content control
+           <<"sdt", << Grid(1, 2, <<SmallTbl>>, 2) >>>>,               \* ... whose cell holds a nested table
+           <<"sdt", << SmallTbl, SmallTbl >>>>,                         \* two adjacent tables in one content control
            <<"sdt", << <<"ul", << <<P1>> >>>> >>>>,
            <<"tbx", <<P1, P1>>>> }                                      \* text box with two paragraphs
 
